@@ -341,6 +341,15 @@ int osmo_sock_init2_ofd(struct osmo_fd *ofd, int family, int type, int proto,
 			  remote_host ? remote_host : "-", remote_port);
 		return -ENODEV;
 	}
+	/* a new instance after the previous one closed everything: start the table afresh, so
+	 * that "ctrl" and "data" name the sockets of the instance that is alive */
+	{
+		unsigned int i, open = 0;
+		for (i = 0; i < shim_num_socks; i++)
+			open += shim_socks[i].open;
+		if (!open)
+			shim_num_socks = 0;
+	}
 	if (shim_num_socks >= SHIM_MAX_SOCK)
 		return -EMFILE;
 	s = &shim_socks[shim_num_socks++];
